@@ -6,20 +6,40 @@ import (
 	"fmt"
 	"os"
 
+	"github.com/usnistgov/dastard"
 	"github.com/usnistgov/dastard/ringbuffer"
 	"verifharness/lib"
 )
 
 type Op struct {
-	Op   string `json:"op"` // W R RM RA DS DA
+	Op   string `json:"op"` // W R RM RA DS DA ; WP = write of the pattern (A+i) mod 251, i < N ; ST = AbacoRing.discardStale
 	Data []byte `json:"-"`
 	D    []int  `json:"d,omitempty"`
 	N    int64  `json:"n,omitempty"`
+	A    int    `json:"a,omitempty"`
 }
 type Case struct {
-	ID  int64 `json:"id"`
-	Cap int   `json:"cap"`
-	Ops []Op  `json:"ops"`
+	ID    int64 `json:"id"`
+	Cap   int   `json:"cap"`
+	Abaco bool  `json:"abaco,omitempty"` // drive discards through dastard's AbacoRing device (packet size 8192)
+	Ops   []Op  `json:"ops"`
+}
+
+// bytesTerm renders a byte string, compactly when it follows the pattern (a+i) mod 251.
+func bytesTerm(b []byte) string {
+	if len(b) >= 64 {
+		ok := true
+		for i := 1; i < len(b); i++ {
+			if int(b[i]) != (int(b[i-1])+1)%251 {
+				ok = false
+				break
+			}
+		}
+		if ok && int(b[0]) < 251 {
+			return fmt.Sprintf("(pat %d %d)", b[0], len(b))
+		}
+	}
+	return lib.ZListBytes(b)
 }
 
 func sizeNear(r *lib.Rng, cap int) int {
@@ -113,6 +133,12 @@ func corpus() []Case {
 		{Cap: 8, Ops: []Op{{Op: "W", D: b(9, 0)}, {Op: "R", N: 3}, {Op: "W", D: b(5, 9)}, {Op: "RA"}, {Op: "RA"}}},
 		{Cap: 8, Ops: []Op{{Op: "W", D: b(7, 0)}, {Op: "RA"}, {Op: "W", D: b(1, 7)}, {Op: "W", D: b(7, 8)}, {Op: "RM", N: 3}, {Op: "DS", N: 5}, {Op: "RA"}}},
 		{Cap: 2, Ops: []Op{{Op: "W", D: b(3, 0)}, {Op: "RA"}, {Op: "W", D: b(1, 1)}, {Op: "RA"}, {Op: "W", D: b(1, 2)}, {Op: "DA"}, {Op: "RA"}}},
+		// a backlog above 1 MiB read with a chunk size that does not divide 2^20 (and then drained)
+		{Cap: 1 << 21, Ops: []Op{{Op: "WP", A: 7, N: 1150000}, {Op: "RM", N: 3000}, {Op: "R", N: 70000}, {Op: "RA"}, {Op: "RA"}}},
+		{Cap: 300000, Ops: []Op{{Op: "WP", A: 1, N: 299999}, {Op: "RM", N: 4097}, {Op: "WP", A: 9, N: 100000}, {Op: "RA"}}},
+		// AbacoRing: stale data that end inside a packet must be discarded only up to a packet boundary
+		{Cap: 8192*3 + 5, Abaco: true, Ops: []Op{{Op: "WP", A: 3, N: 5000}, {Op: "ST"}, {Op: "WP", A: 100, N: 8000}, {Op: "ST"}, {Op: "RM", N: 8192}, {Op: "RA"}}},
+		{Cap: 8192 * 4, Abaco: true, Ops: []Op{{Op: "WP", A: 0, N: 20000}, {Op: "ST"}, {Op: "RA"}, {Op: "WP", A: 5, N: 13000}, {Op: "ST"}, {Op: "RM", N: 8192}}},
 	}
 }
 
@@ -133,6 +159,29 @@ func gen(seed uint64, tier string) []interface{} {
 		out = append(out, genCase(r.Fork(), id, tier))
 		id++
 	}
+	// AbacoRing device on rings of 2..5 packets: writes that end inside and on packet boundaries, stale discards
+	na := 12
+	if tier == "thorough" {
+		na = 150
+	}
+	for i := 0; i < na; i++ {
+		q := r.Fork()
+		c := Case{ID: id, Abaco: true, Cap: 8192*q.Range(2, 5) + q.Pick([]int{0, 1, 5, 4096})}
+		for k := q.Range(3, 9); k > 0; k-- {
+			switch q.Intn(6) {
+			case 0, 1, 2:
+				c.Ops = append(c.Ops, Op{Op: "WP", A: q.Intn(251), N: int64(q.Pick([]int{1, 100, 4096, 5000, 8191, 8192, 8193, 12000, 16384, 20000}))})
+			case 3:
+				c.Ops = append(c.Ops, Op{Op: "ST"})
+			case 4:
+				c.Ops = append(c.Ops, Op{Op: "RM", N: 8192})
+			default:
+				c.Ops = append(c.Ops, Op{Op: q.Pick2("RA", "R"), N: int64(q.Range(1, 9000))})
+			}
+		}
+		out = append(out, c)
+		id++
+	}
 	return out
 }
 
@@ -148,10 +197,21 @@ type obsv struct {
 func runCase(c Case) lib.Result {
 	res := lib.Result{ID: c.ID, Hash: lib.Hash(struct {
 		C int
+		A bool
 		O []Op
-	}{c.Cap, c.Ops})}
+	}{c.Cap, c.Abaco, c.Ops})}
 	name := fmt.Sprintf("verif_c18_%d_%d", os.Getpid(), c.ID)
-	rb, err := ringbuffer.NewRingBuffer(name+"_raw", name+"_desc")
+	rawName, descName := name+"_raw", name+"_desc"
+	ringnum := 0
+	if c.Abaco {
+		// NewAbacoRing accepts negative ring numbers "for testing only": one per process and case
+		ringnum = -(1 + (os.Getpid()%30000)*1000 + int(c.ID%1000))
+		var err error
+		if rawName, descName, err = dastard.VerifRingNames(ringnum); err != nil {
+			panic(err)
+		}
+	}
+	rb, err := ringbuffer.NewRingBuffer(rawName, descName)
 	if err != nil {
 		panic(err)
 	}
@@ -159,6 +219,12 @@ func runCase(c Case) lib.Result {
 		panic(err)
 	}
 	defer func() { rb.Close(); rb.Unlink() }()
+	var dev *dastard.VerifAbacoRing
+	defer func() {
+		if dev != nil {
+			dev.Stop()
+		}
+	}()
 	var terms []string
 	var impl []obsv
 	tags := map[string]bool{}
@@ -175,10 +241,32 @@ func runCase(c Case) lib.Result {
 				}
 			}()
 			switch o.Op {
-			case "W":
+			case "ST":
+				// the device is opened by the first ST (start() = Open + discardStale), later ones call discardStale
+				var err error
+				if dev == nil {
+					dev, err = dastard.VerifOpenAbacoRing(ringnum)
+				} else {
+					err = dev.DiscardStale()
+				}
+				if err != nil {
+					ob = obsv{Ret: "err"}
+					tags["error-return"] = true
+				} else {
+					ob = obsv{Ret: "nil"}
+				}
+				tags["abaco-discard-stale"] = true
+			case "W", "WP":
 				d := make([]byte, len(o.D))
 				for i, v := range o.D {
 					d[i] = byte(v)
+				}
+				if o.Op == "WP" {
+					d = make([]byte, o.N)
+					for i := range d {
+						d[i] = byte((o.A + i) % 251)
+					}
+					tags["long-pattern-write"] = true
 				}
 				n, _ := rb.Write(d)
 				ob = obsv{Ret: "written", N: n}
@@ -207,8 +295,12 @@ func runCase(c Case) lib.Result {
 				} else {
 					cp := append([]byte(nil), data...)
 					ob = obsv{Ret: "data", Data: cp}
-					for _, v := range cp {
-						ob.D = append(ob.D, int(v))
+					if len(cp) <= 4096 {
+						for _, v := range cp {
+							ob.D = append(ob.D, int(v))
+						}
+					} else {
+						ob.N = len(cp)
 					}
 					if len(cp) == 0 {
 						tags["empty-read"] = true
@@ -239,7 +331,7 @@ func runCase(c Case) lib.Result {
 			}
 			ob.Readable = rb.BytesReadable()
 			ob.Writable = rb.BytesWriteable()
-			if o.Op == "DS" || o.Op == "DA" {
+			if o.Op == "DS" || o.Op == "DA" || o.Op == "ST" {
 				r = w - ob.Readable
 			}
 		}()
@@ -259,23 +351,31 @@ func runCase(c Case) lib.Result {
 			switch o.Op {
 			case "W":
 				term = fmt.Sprintf("W %s %s %s", lib.ZListInt(o.D), lib.Z(int64(ob.N)), rw)
+			case "WP":
+				term = fmt.Sprintf("W (pat %d %d) %s %s", o.A%251, o.N, lib.Z(int64(ob.N)), rw)
+			case "ST":
+				if ob.Ret == "err" {
+					term = fmt.Sprintf("DSe 8192 %s", rw)
+				} else {
+					term = fmt.Sprintf("DS 8192 %s", rw)
+				}
 			case "R":
 				if ob.Ret == "err" {
 					term = "RMe (-1) " + rw
 				} else {
-					term = fmt.Sprintf("Rd %s %s %s", lib.Z(o.N), lib.ZListBytes(ob.Data), rw)
+					term = fmt.Sprintf("Rd %s %s %s", lib.Z(o.N), bytesTerm(ob.Data), rw)
 				}
 			case "RA":
 				if ob.Ret == "err" {
 					term = "RMe (-1) " + rw
 				} else {
-					term = fmt.Sprintf("RA %s %s", lib.ZListBytes(ob.Data), rw)
+					term = fmt.Sprintf("RA %s %s", bytesTerm(ob.Data), rw)
 				}
 			case "RM":
 				if ob.Ret == "err" {
 					term = fmt.Sprintf("RMe %s %s", lib.Z(o.N), rw)
 				} else {
-					term = fmt.Sprintf("RM %s %s %s", lib.Z(o.N), lib.ZListBytes(ob.Data), rw)
+					term = fmt.Sprintf("RM %s %s %s", lib.Z(o.N), bytesTerm(ob.Data), rw)
 				}
 			case "DS":
 				if ob.Ret == "err" {
